@@ -81,8 +81,17 @@ def batch_independence(ctx, clause: str):
         recv = n.func.value
         n_red += 1
         par = pm.get(n)
-        if isinstance(par, ast.If) and par.test is n and isinstance(recv, ast.Name):
-            mask = recv.id
+        if isinstance(par, ast.If) and par.test is n:
+            from sa.inline import Inliner
+            inl = Inliner(f.node)
+            mask = recv.id if isinstance(recv, ast.Name) else u(recv)[:30]
+            maskx = inl.text(recv)
+
+            def is_mask(e):
+                while isinstance(e, ast.Call) and isinstance(e.func, ast.Attribute) and e.func.attr in ("unsqueeze", "expand_as", "expand"):
+                    e = e.func.value
+                return inl.text(e) == maskx or (isinstance(recv, ast.Call) and False)
+            in_body = {id(x) for st_ in par.body for x in ast.walk(st_)}
             bad = []
             for st in par.body:
                 if isinstance(st, ast.If) and all(isinstance(s, ast.Expr) and isinstance(s.value, ast.Call)
@@ -91,18 +100,23 @@ def batch_independence(ctx, clause: str):
                 if isinstance(st, ast.Assign) and len(st.targets) == 1 and isinstance(st.targets[0], ast.Name):
                     t = st.targets[0].id
                     v = st.value
+                    # a temporary of the block: every read of it lies inside the block, and it is no result of the kernel
+                    reads = [x for x in ast.walk(f.node) if isinstance(x, ast.Name) and x.id == t and isinstance(x.ctx, ast.Load)]
+                    stores = [x for x in ast.walk(f.node) if isinstance(x, ast.Name) and x.id == t and isinstance(x.ctx, ast.Store)]
+                    if reads and all(id(x) in in_body for x in reads) and len(stores) == 1:
+                        continue
                     # t = t - M.to(...)
                     if isinstance(v, ast.BinOp) and isinstance(v.op, ast.Sub) and u(v.left) == t \
                             and isinstance(v.right, ast.Call) and isinstance(v.right.func, ast.Attribute) \
-                            and v.right.func.attr == "to" and u(v.right.func.value) == mask:
+                            and v.right.func.attr == "to" and is_mask(v.right.func.value):
                         continue
                     # t = torch.where(M, a, t)
                     if isinstance(v, ast.Call) and call_name(v) == "torch.where" and len(v.args) == 3 \
-                            and u(v.args[0]) == mask and u(v.args[2]) == t:
+                            and is_mask(v.args[0]) and u(v.args[2]) == t:
                         continue
                     # t = t.masked_fill(M, c)
                     if isinstance(v, ast.Call) and isinstance(v.func, ast.Attribute) and v.func.attr == "masked_fill" \
-                            and u(v.func.value) == t and v.args and u(v.args[0]) == mask:
+                            and u(v.func.value) == t and v.args and is_mask(v.args[0]):
                         continue
                 bad.append(st)
             col.ob("G17", clause, f"{where}::if-{mask}.{n.func.attr}()::only-masked-idempotent-updates", not bad,
@@ -148,39 +162,86 @@ def equal_cost_shortcut(ctx, clause: str):
     ok_ops = all(isinstance(o, ast.Eq) for o in br.test.ops[:2]) and isinstance(br.test.ops[-1], ast.Gt)
     col.ob("G16", clause, f"{where}::equal-cost-test", ok_ops and u(br.test.comparators[-1]) in ("0.0", "0"),
            f"the shortcut is taken under `{u(br.test)}`; expected ins == del == sub > 0", rel, br.lineno, sample=u(br.test))
-    reset = [s for s in br.body if isinstance(s, ast.Assign) and {u(t) for t in s.targets} == set(costs)]
-    col.ob("G16", clause, f"{where}::costs-reset-to-1", len(reset) == 1 and u(reset[0].value) in ("1.0", "1"),
-           "in the equal-cost branch the three costs are not all reset to 1.0", rel, br.lineno)
-    mult = None
-    for s in ast.walk(br):
-        if isinstance(s, ast.Assign) and len(s.targets) == 1 and isinstance(s.targets[0], ast.Name) and u(s.value) in costs:
-            mult = s
-    if mult is None:
-        raise AnalysisError("the cost multiplier of the equal-cost branch was not found")
-    mname = mult.targets[0].id
-    gs = guards_of(pm, mult)
-    under_not_mist = any((u(t) == "not return_mistakes" and pol) or (u(t) == "return_mistakes" and not pol) for t, pol in gs)
-    col.ob("G16", clause, f"{where}::multiplier-only-for-distances", under_not_mist,
-           f"`{u(mult)}` rescales by the cost even when error counts (return_mistakes) are requested: an error rate "
-           f"would no longer equal the plain Levenshtein count for equal costs != 1", rel, mult.lineno, sample=u(mult))
-    order_ok = mult.lineno < (reset[0].lineno if reset else 0)
-    col.ob("G16", clause, f"{where}::multiplier-read-before-reset", order_ok,
-           "the multiplier is taken from the cost after the cost was reset to 1.0", rel, mult.lineno)
+    # the branch interpreted for both values of return_mistakes: afterwards the three costs are 1, the multiplier is the
+    # common cost when distances were requested and 1 when error counts were, and the mistakes table is off
+    inside = {x.id for st in ast.walk(br) for x in ([st.targets[0]] if isinstance(st, ast.Assign) and len(st.targets) == 1 else [])
+              if isinstance(x, ast.Name)} - set(costs) - {"return_mistakes"}
+    cands = sorted(nm for nm in inside if any(d.name == nm and d.kind == "assign" and u(d.value) in ("1.0", "1") and
+                                              not any(x is d.stmt for x in ast.walk(br)) for d in rd.defs))
+    if len(cands) != 1:
+        raise AnalysisError(f"the cost multiplier of the equal-cost branch was not found (candidates {cands})")
+    mname = cands[0]
+
+    class _Und(Exception):
+        pass
+
+    def _ev(e, st_):
+        if isinstance(e, ast.Constant):
+            return e.value
+        if isinstance(e, ast.Name):
+            if e.id in st_:
+                return st_[e.id]
+            raise _Und(e.id)
+        if isinstance(e, ast.UnaryOp) and isinstance(e.op, ast.Not):
+            return not _ev(e.operand, st_)
+        if isinstance(e, ast.IfExp):
+            return _ev(e.body, st_) if _ev(e.test, st_) else _ev(e.orelse, st_)
+        raise _Und(u(e)[:40])
+
+    def _run(body, st_):
+        for x in body:
+            if isinstance(x, ast.Assign):
+                tg = [t.id for t in x.targets if isinstance(t, ast.Name)]
+                if not set(tg) & set(st_):
+                    continue
+                if len(tg) != len(x.targets):
+                    raise _Und(u(x)[:40])
+                v_ = _ev(x.value, st_)
+                for t in tg:
+                    st_[t] = v_
+            elif isinstance(x, ast.If):
+                _run(x.body if _ev(x.test, st_) else x.orelse, st_)
+            elif isinstance(x, (ast.Expr, ast.Pass)):
+                continue
+            else:
+                if {n_.id for n_ in ast.walk(x) if isinstance(n_, ast.Name) and isinstance(n_.ctx, ast.Store)} & set(st_):
+                    raise _Und(type(x).__name__)
+    outcome = {}
+    try:
+        for flag in (False, True):
+            st_ = {c: "COST" for c in costs}
+            st_.update({mname: 1.0, "return_mistakes": flag})
+            _run(br.body, st_)
+            outcome[flag] = dict(st_)
+    except _Und as ex:
+        col.undecided(f"{where}: equal-cost branch outside the interpreted fragment ({ex})")
+        outcome = None
+    if outcome is not None:
+        col.ob("G16", clause, f"{where}::costs-reset-to-1", all(outcome[fl][c] in (1, 1.0) for fl in outcome for c in costs),
+               "in the equal-cost branch the three costs are not all reset to 1.0", rel, br.lineno)
+        col.ob("G16", clause, f"{where}::multiplier-only-for-distances", outcome[True][mname] in (1, 1.0),
+               f"`{mname}` rescales by the cost even when error counts (return_mistakes) are requested: an error rate "
+               f"would no longer equal the plain Levenshtein count for equal costs != 1", rel, br.lineno, sample=str(outcome[True][mname]))
+        col.ob("G16", clause, f"{where}::multiplier-read-before-reset", outcome[False][mname] == "COST",
+               f"with distances requested the multiplier is {outcome[False][mname]!r} after the branch, not the common cost (it is "
+               f"taken after the cost was reset to 1.0, or not at all)", rel, br.lineno, sample=str(outcome[False][mname]))
+        col.ob("G16", clause, f"{where}::mistakes-table-off-for-equal-costs", all(outcome[fl]["return_mistakes"] is False for fl in outcome),
+               "the equal-cost branch does not fall back to the distance table", rel, br.lineno)
     init = [d for d in rd.defs if d.name == mname and d.kind == "assign" and u(d.value) in ("1.0", "1")]
     col.ob("G16", clause, f"{where}::multiplier-initialised-1", len(init) == 1,
            f"the multiplier `{mname}` is not initialised to 1.0", rel, f.line)
-    # every returned distance is multiplied by the multiplier exactly once
-    muls = [n for n in own_nodes(f.node) if isinstance(n, ast.Assign) and isinstance(n.value, ast.BinOp)
-            and isinstance(n.value.op, ast.Mult) and mname in (u(n.value.left), u(n.value.right))]
-    tgts = sorted(u(n.targets[0]) for n in muls)
-    col.ob("G16", clause, f"{where}::both-results-rescaled", len(muls) == 2 and all(
-        u(n.targets[0]) in (u(n.value.left), u(n.value.right)) for n in muls),
-        f"results rescaled by the multiplier: {tgts} (expected the final and the per-prefix result, once each)", rel,
-        f.line, sample=tgts)
-    # the branch also turns off the mistakes table (counts == distances for unit costs)
-    off = [s for s in br.body if isinstance(s, ast.Assign) and u(s.targets[0]) == "return_mistakes" and u(s.value) == "False"]
-    col.ob("G16", clause, f"{where}::mistakes-table-off-for-equal-costs", len(off) == 1,
-           "the equal-cost branch does not fall back to the distance table", rel, br.lineno)
+    # every returned distance is multiplied by the multiplier exactly once (the mask form is not a distance)
+    rets = [n for n in own_nodes(f.node) if isinstance(n, ast.Return) and n.value is not None]
+    counts = {}
+    for r_ in rets:
+        prods = {id(x) for x in rd.derives(r_.value).nodes() if isinstance(x, ast.BinOp) and isinstance(x.op, ast.Mult)
+                 and any(isinstance(o, ast.Name) and o.id == mname for o in (x.left, x.right))}
+        counts[r_.lineno] = len(prods)
+    scaled = [ln for ln, k in counts.items() if k == 1]
+    okc = all(k <= 1 for k in counts.values()) and len(scaled) == 2
+    col.ob("G16", clause, f"{where}::both-results-rescaled", okc,
+           f"multiplications by the multiplier on the way to each return: {counts} (expected exactly one for the final and the "
+           f"per-prefix result, none for the mask)", rel, f.line, sample=counts)
 
 
 def empty_reference_convention(ctx, clause: str):
@@ -208,7 +269,8 @@ def empty_reference_convention(ctx, clause: str):
         if not any(u(t) == "norm" and pol for t, pol in guards_of(pm, c)):
             continue
         sites += 1
-        X = c.args[1]
+        from sa.inline import Inliner
+        X = Inliner(f.node, rd).expand(c.args[1])
         ind = None
         for x in ast.walk(X):
             if isinstance(x, ast.Call) and isinstance(x.func, ast.Attribute) and x.func.attr in ("gt", "ne", "bool") and \
@@ -240,9 +302,17 @@ def lens_helper_total(ctx, clause: str):
                 and isinstance(c.args[0], ast.Name) and c.args[0].id == dimp:
             sites.append(c)
     guarded = []
+    from sa.inline import Inliner
+    inl = Inliner(f.node)
+
+    def _emptiness_test(t):
+        t = inl.expand(t)
+        return any(isinstance(x, ast.Name) and x.id == tok for x in ast.walk(t)) and any(
+            (isinstance(x, ast.Call) and isinstance(x.func, ast.Attribute) and x.func.attr in ("size", "numel")) or
+            (isinstance(x, ast.Attribute) and x.attr == "shape") for x in ast.walk(t))
     for c in sites:
-        ok = False
-        for t, pol in guards_of(pm, c):
+        ok = any(_emptiness_test(t) for t, pol in guards_of(pm, c))
+        for t, pol in []:
             if any(isinstance(x, ast.Name) and x.id == tok for x in ast.walk(t)) and any(
                     (isinstance(x, ast.Attribute) and x.attr in ("shape",)) or
                     (isinstance(x, ast.Call) and isinstance(x.func, ast.Attribute) and x.func.attr in ("size", "numel")) for x in ast.walk(t)):
@@ -251,10 +321,7 @@ def lens_helper_total(ctx, clause: str):
         for st in f.node.body:
             if st.lineno >= c.lineno:
                 break
-            if isinstance(st, ast.If) and any(isinstance(x, ast.Return) for x in st.body) and \
-                    any(isinstance(x, ast.Name) and x.id == tok for x in ast.walk(st.test)) and \
-                    any((isinstance(x, ast.Call) and isinstance(x.func, ast.Attribute) and x.func.attr in ("size", "numel")) or
-                        (isinstance(x, ast.Attribute) and x.attr == "shape") for x in ast.walk(st.test)):
+            if isinstance(st, ast.If) and any(isinstance(x, ast.Return) for x in st.body) and _emptiness_test(st.test):
                 ok = True
         guarded.append(ok)
     col.ob("G23", clause, f"{rel}::_lens_from_eos::index-reduction-guarded-for-the-empty-dimension", bool(sites) and all(guarded),
@@ -288,6 +355,10 @@ def no_eos_mask_uses_its_own_extent(ctx, clause: str):
             a, b, pa, pb = b, a, pb, pa
         if not is_len(a) or is_len(b) or len(pa) != 1:
             continue
+        b_is_extent = any(isinstance(x, ast.Attribute) and x.attr == "shape" for e_ in rd.derives(b).exprs for x in ast.walk(e_)) or \
+            any(isinstance(c.func, ast.Attribute) and c.func.attr == "size" for c in rd.derives(b).calls())
+        if not b_is_extent:
+            continue  # a comparison with a constant (lengths == 0) is another mask
         n += 1
         col.ob("G13", clause, f"{rel}::{KERNEL}::no-eos-mask[{sorted(pa)[0]}]-compares-with-its-own-extent", pb == pa,
                f"`{u(st)}` compares lengths derived from `{sorted(pa)[0]}` with an extent derived from {sorted(pb) or '?'}: a "
